@@ -206,7 +206,7 @@ fn shape(ast: &RAst, index: &HashMap<String, usize>) -> Option<Shape> {
 }
 
 /// enumerate all models of a Shape (back-tracking with bound checks), up to `limit`
-fn models(s: &Shape, limit: usize) -> Option<Vec<Vec<bool>>> {
+fn models(s: &Shape, limit: usize, max_steps: u64) -> Option<Vec<Vec<bool>>> {
     let n = s.nvars;
     let mut asg: Vec<Option<bool>> = vec![None; n];
     for u in &s.units {
@@ -214,15 +214,17 @@ fn models(s: &Shape, limit: usize) -> Option<Vec<Vec<bool>>> {
     }
     // order variables: by first occurrence in the constraints
     let mut order: Vec<usize> = Vec::new();
+    let mut in_order = vec![false; n];
     for (vs, _, _) in &s.cards {
         for v in vs {
-            if !order.contains(v) {
+            if !in_order[*v] {
+                in_order[*v] = true;
                 order.push(*v);
             }
         }
     }
     for v in 0..n {
-        if !order.contains(&v) {
+        if !in_order[v] {
             order.push(v);
         }
     }
@@ -262,9 +264,16 @@ fn models(s: &Shape, limit: usize) -> Option<Vec<Vec<bool>>> {
         out: &mut Vec<Vec<bool>>,
         limit: usize,
         steps: &mut u64,
+        max_steps: u64,
+        truncated: &mut bool,
     ) -> bool {
         *steps += 1;
-        if *steps > 20_000_000 || out.len() > limit {
+        if *steps > max_steps {
+            return false;
+        }
+        if out.len() > limit {
+            // enough models collected: stop, but this is not a failed search
+            *truncated = true;
             return false;
         }
         let mut d = depth;
@@ -278,7 +287,7 @@ fn models(s: &Shape, limit: usize) -> Option<Vec<Vec<bool>>> {
         let v = order[d];
         for val in [true, false] {
             asg[v] = Some(val);
-            if by_var[v].iter().all(|ci| feasible(s, *ci, asg)) && !go(s, order, by_var, d + 1, asg, out, limit, steps) {
+            if by_var[v].iter().all(|ci| feasible(s, *ci, asg)) && !go(s, order, by_var, d + 1, asg, out, limit, steps, max_steps, truncated) {
                 asg[v] = None;
                 return false;
             }
@@ -286,10 +295,103 @@ fn models(s: &Shape, limit: usize) -> Option<Vec<Vec<bool>>> {
         asg[v] = None;
         true
     }
-    if go(s, &order, &by_var, 0, &mut asg, &mut out, limit, &mut steps) {
+    let mut truncated = false;
+    if go(s, &order, &by_var, 0, &mut asg, &mut out, limit, &mut steps, max_steps, &mut truncated) || truncated {
+        // (when truncated, `out` holds limit + 1 models)
         Some(out)
     } else {
         None
+    }
+}
+
+/// A small DPLL for cardinality constraints (count of true variables `op` k) with unit
+/// propagation and smallest-constraint-first branching: finds ONE model or proves there is none
+/// within `max_nodes` decisions (None = gave up).
+fn find_model(s: &Shape, max_nodes: u64) -> Option<Option<Vec<bool>>> {
+    let n = s.nvars;
+    let mut asg: Vec<Option<bool>> = vec![None; n];
+    for u in &s.units {
+        asg[*u] = Some(true);
+    }
+    fn bounds(op: CntOp, k: u64) -> (i64, i64) {
+        // allowed count range [lo, hi]
+        let k = k as i64;
+        match op {
+            CntOp::Exactly => (k, k),
+            CntOp::AtMost => (0, k),
+            CntOp::LessThan => (0, k - 1),
+            CntOp::AtLeast => (k, i64::MAX),
+            CntOp::MoreThan => (k + 1, i64::MAX),
+        }
+    }
+    /// propagate to a fixed point; false = conflict
+    fn propagate(s: &Shape, asg: &mut Vec<Option<bool>>) -> bool {
+        loop {
+            let mut changed = false;
+            for (vs, op, k) in &s.cards {
+                let (lo, hi) = bounds(*op, *k);
+                let t = vs.iter().filter(|v| asg[**v] == Some(true)).count() as i64;
+                let free: Vec<usize> = vs.iter().copied().filter(|v| asg[*v].is_none()).collect();
+                let f = free.len() as i64;
+                if t > hi || t + f < lo {
+                    return false;
+                }
+                if f > 0 && t == hi {
+                    for v in &free {
+                        asg[*v] = Some(false);
+                    }
+                    changed = true;
+                } else if f > 0 && t + f == lo {
+                    for v in &free {
+                        asg[*v] = Some(true);
+                    }
+                    changed = true;
+                }
+            }
+            if !changed {
+                return true;
+            }
+        }
+    }
+    fn go(s: &Shape, asg: &mut Vec<Option<bool>>, nodes: &mut u64, max_nodes: u64) -> Option<bool> {
+        if !propagate(s, asg) {
+            return Some(false);
+        }
+        // branch on a free variable of the constraint with the fewest free variables
+        let mut best: Option<(usize, usize)> = None;
+        for (vs, _, _) in &s.cards {
+            let free: Vec<usize> = vs.iter().copied().filter(|v| asg[*v].is_none()).collect();
+            if !free.is_empty() && best.map(|b| free.len() < b.0).unwrap_or(true) {
+                best = Some((free.len(), free[0]));
+            }
+        }
+        let var = match best {
+            Some((_, v)) => v,
+            None => match asg.iter().position(|a| a.is_none()) {
+                Some(v) => v,
+                None => return Some(true),
+            },
+        };
+        *nodes += 1;
+        if *nodes > max_nodes {
+            return None;
+        }
+        for val in [true, false] {
+            let saved = asg.clone();
+            asg[var] = Some(val);
+            match go(s, asg, nodes, max_nodes) {
+                Some(true) => return Some(true),
+                Some(false) => *asg = saved,
+                None => return None,
+            }
+        }
+        Some(false)
+    }
+    let mut nodes = 0u64;
+    match go(s, &mut asg, &mut nodes, max_nodes) {
+        Some(true) => Some(Some(asg.iter().map(|a| a.unwrap_or(false)).collect())),
+        Some(false) => Some(None),
+        None => None,
     }
 }
 
@@ -434,13 +536,112 @@ pub fn check_case(c: &Case) -> Result<Report, Violation> {
             }
         }
     }
-    // exactness: enumerate ALL models of the emitted constraints (always for r <= 2; for r = 3 when
-    // the puzzle has few enough solutions for both enumerations to finish within their step bounds)
+    // structural comparison of the emitted constraint system with the reference system (cells, rows,
+    // columns, boxes: exactly one; givens: literals). A reference constraint that is not literally
+    // present must still be implied: a bounded search looks for a model of the emitted system that
+    // violates it (such a model is a non-solution the formula accepts).
+    let mut same_system = false;
+    if let Some(sh) = shape(&parsed.ast, &index) {
+        let norm = |vs: &Vec<usize>| -> Vec<usize> {
+            let mut v = vs.clone();
+            v.sort();
+            v
+        };
+        let emitted: BTreeSet<(Vec<usize>, u8, u64)> = sh
+            .cards
+            .iter()
+            .map(|(vs, op, k)| (norm(vs), *op as u8, *k))
+            .collect();
+        let var = |cell: usize, d: usize| -> usize { index[&format!("_{}_is_{}", cell, d)] };
+        let mut reference: Vec<Vec<usize>> = Vec::new();
+        for cell in 0..sq * sq {
+            reference.push((1..=sq).map(|d| var(cell, d)).collect());
+        }
+        for d in 1..=sq {
+            for i in 0..sq {
+                reference.push((0..sq).map(|j| var(i * sq + j, d)).collect());
+                reference.push((0..sq).map(|j| var(j * sq + i, d)).collect());
+            }
+            for br in 0..c.root {
+                for bc in 0..c.root {
+                    reference.push(
+                        (0..sq)
+                            .map(|l| var((br * c.root + l / c.root) * sq + bc * c.root + l % c.root, d))
+                            .collect(),
+                    );
+                }
+            }
+        }
+        let missing: Vec<Vec<usize>> = reference
+            .iter()
+            .filter(|vs| !emitted.contains(&(norm(vs), CntOp::Exactly as u8, 1)))
+            .cloned()
+            .collect();
+        let given_units: BTreeSet<usize> = giv
+            .iter()
+            .enumerate()
+            .filter_map(|(cell, g)| g.map(|d| var(cell, d)))
+            .collect();
+        let emitted_units: BTreeSet<usize> = sh.units.iter().copied().collect();
+        same_system = missing.is_empty() && given_units == emitted_units && emitted.len() == reference.len();
+        let describe = |m: &Vec<bool>| -> Vec<(usize, usize)> {
+            let mut s_: Vec<(usize, usize)> = names
+                .iter()
+                .enumerate()
+                .filter(|(i, _)| m[*i])
+                .filter_map(|(_, n)| var_of(n, c.root))
+                .collect();
+            s_.sort();
+            s_
+        };
+        for (mi, vs) in missing.iter().enumerate() {
+            if mi >= 24 {
+                break;
+            }
+            for neg in [(CntOp::AtLeast, 2u64), (CntOp::AtMost, 0u64)] {
+                let mut probe = Shape {
+                    nvars: sh.nvars,
+                    units: sh.units.clone(),
+                    cards: sh.cards.clone(),
+                };
+                // the violated constraint first: its variables are decided first
+                probe.cards.insert(0, (vs.clone(), neg.0, neg.1));
+                if let Some(found) = find_model(&probe, 3_000) {
+                    if let Some(m) = found.as_ref() {
+                        compared += 1;
+                        return Err(v(format!(
+                            "the formula accepts an assignment in which a row/column/box/cell constraint of the puzzle is violated (variables {:?} hold {} times): true variables (cell, digit) = {:?}",
+                            vs.iter().map(|i| names[*i].clone()).collect::<Vec<_>>(),
+                            vs.iter().filter(|i| m[**i]).count(),
+                            describe(m)
+                        ))
+                        .sig(sig));
+                    }
+                }
+            }
+        }
+        for g in given_units.difference(&emitted_units) {
+            let mut probe = Shape {
+                nvars: sh.nvars,
+                units: sh.units.clone(),
+                cards: sh.cards.clone(),
+            };
+            probe.cards.insert(0, (vec![*g], CntOp::AtMost, 0));
+            if let Some(found) = find_model(&probe, 3_000) {
+                if let Some(m) = found.as_ref() {
+                    return Err(v(format!("the formula accepts a grid that drops the given {}: {:?}", names[*g], describe(m))).sig(sig));
+                }
+            }
+        }
+    }
+    // exactness: enumerate ALL models of the emitted constraints (always for r <= 2; for r = 3 when the
+    // emitted system is literally the reference system and the puzzle has few solutions)
     let mut exact = false;
-    let ref_complete = if c.root <= 2 { true } else { sols.len() < 40 };
+    let ref_complete = if c.root <= 2 { true } else { sols.len() < 40 && same_system };
     if ref_complete {
         if let Some(sh) = shape(&parsed.ast, &index) {
-            if let Some(ms) = models(&sh, if c.root <= 2 { 200_000 } else { 2_000 }) {
+            let mlimit = if c.root <= 2 { 200_000 } else { 2_000 };
+            if let Some(ms) = models(&sh, mlimit, if c.root <= 2 { 20_000_000 } else { 3_000_000 }).filter(|m| m.len() <= mlimit) {
                 exact = true;
                 let got: BTreeSet<Vec<(usize, usize)>> = ms
                     .iter()
@@ -627,7 +828,7 @@ fn record(c: &Case, rep: &Report, st: &mut Stats) {
 
 pub fn run(ctx: &mut Ctx) -> Result<(), Violation> {
     ctx.rule = "cases = (root r, puzzle text): hint patterns empty / full valid grid / partial valid / contradictory (equal givens in a row) / random givens, layouts with line breaks, spaces, tabs, CRLF, short and over-long inputs, blank symbols drawn from printable non-digit ASCII INCLUDING the double quote and a few non-ASCII characters; givens are digits 1..r^2. The sudoku_gen binary built from the working tree is run with file and stdin input (must agree). \
-                Oracle: independent back-tracking sudoku enumerator. r <= 2 (and r = 3 whenever the puzzle has fewer than 40 solutions and the enumeration finishes within its step bound): ALL models of the emitted text (reduced by the reference parser to literals and cardinality constraints, enumerated by a cardinality back-tracker) must equal, one-to-one, the reference grids. Every r (incl. 3): every reference solution satisfies the formula (pointwise reference evaluation) and near-misses (swap two cells, change a cell, extra value, emptied cell, broken given) are classified exactly as the reference classifier 'completed grid keeping the givens' does. \
+                Oracle: independent back-tracking sudoku enumerator. r <= 2 (and r = 3 whenever the puzzle has fewer than 40 solutions and the enumeration finishes within its step bound): ALL models of the emitted text (reduced by the reference parser to literals and cardinality constraints, enumerated by a cardinality back-tracker) must equal, one-to-one, the reference grids. Every r: the emitted literals and cardinality constraints are compared with the reference system (cells, rows, columns, boxes, givens); for each reference constraint not literally present a bounded back-tracking search looks for a model of the emitted system that violates it. Every r (incl. 3): every reference solution satisfies the formula (pointwise reference evaluation) and near-misses (swap two cells, change a cell, extra value, emptied cell, broken given) are classified exactly as the reference classifier 'completed grid keeping the givens' does. \
                 Non-trivial = case with r >= 2; distinct by (root, puzzle text). evaluations counts assignments / models compared."
         .to_string();
     ctx.assume("givens are digits between 1 and r^2; `0` and digits above r^2 are not generated (outside the property's domain)");
